@@ -106,7 +106,7 @@ func firstDiffNode(segs []ref.Seg, got string) string {
 func compareRender(ctx *fw.Ctx, segs []ref.Seg, st ref.Status, got string, err error, cd *caseDump) *fw.Result {
 	want := ref.NormalizeRefs(ref.Text(segs))
 	got = ref.NormalizeRefs(got)
-	cd.Want, cd.Got, cd.Err = want, got, errText(err)
+	cd.Want, cd.Got, cd.Err = diffWindow(want, got), diffWindow(got, want), errText(err)
 	switch st {
 	case ref.OK:
 		ctx.Obs("renders_ok", 1)
@@ -132,12 +132,32 @@ func compareRender(ctx *fw.Ctx, segs []ref.Seg, st ref.Status, got string, err e
 	return nil
 }
 
+// diffWindow is a for the dump: all of it when it is short, else the part around the first difference with b.
+func diffWindow(a, b string) string {
+	if len(a) <= 4000 {
+		return a
+	}
+	i := 0
+	for i < len(a) && i < len(b) && a[i] == b[i] {
+		i++
+	}
+	lo, hi := i-1500, i+1500
+	if lo < 0 {
+		lo = 0
+	}
+	if hi > len(a) {
+		hi = len(a)
+	}
+	return fmt.Sprintf("(%d bytes; bytes %d..%d:) %s", len(a), lo, hi, a[lo:hi])
+}
+
 func c02Opts(r *fw.Rand, tier string) gen.Opts {
 	o := gen.Opts{MaxDepth: 2 + r.Intn(2), Msgs: r.P(1, 2), Directives: r.P(2, 3), Autoescape: r.P(1, 2), LetShadow: true,
 		Globals: r.P(1, 3), IJ: r.P(1, 3), ErrPlants: r.P(1, 4), Recursion: r.P(1, 3)}
 	if tier == "thorough" {
 		o.MaxDepth = 2 + r.Intn(4)
 	}
+	o.Big = r.P(1, 12)
 	return o
 }
 
